@@ -36,6 +36,7 @@ def run(ctx):
     c09_5(ctx)
     c09_6(ctx)
     c09_7(ctx)
+    c09_8(ctx)
     # removal / addition ids come from Coin::coin_id (amount ladder, shared with C11.1); the coin lookup walks spends with the
     # sanitiser atoms first/rest/next/check_nil (value-based nil test, shared with C01.3)
     from . import c11, c01
@@ -466,3 +467,75 @@ def c09_7(ctx):
         rows = {(ex[0], str(apnf.N(P.ret_of(ev))) if ex[0] == "return" else "") for ev, ex in P.enumerate_paths(pb)}
         ctx.ob(R, "program:to-node", rows == {("return", "('Result::map_err', ('node_from_bytes', ('.0', 'self')), ('closure', '{closure#0}'))")},
                "Program::to_clvm(Allocator) = node_from_bytes(self bytes)", found=sorted(map(str, rows))[:2])
+
+
+# ------------------------------------------------------------------ C09.8 (round 7)
+def c09_8(ctx):
+    """(a) the trusted helpers run the generator under the caller's consensus flags, whole: ChiaDialect::new receives
+    `flags.to_clvm_flags()` and nothing derived from it (a masked flag set silently runs post-fork blocks with pre-fork operator
+    semantics); (b) the conditions that survive the per-spend reporting cap are exactly the eight AGG_SIG_* codes and
+    CREATE_COIN: decision table of is_high_priority_condition over every u16 plus the out-of-range class."""
+    R = "C09.8"
+    fb = ctx.fb
+    n = 0
+    for suffix in ("additions_and_removals::additions_and_removals", "run_block_generator::get_coinspends_for_trusted_block",
+                   "run_block_generator::get_coinspends_with_conditions_for_trusted_block"):
+        fs = [f for p, f in fb.fns.items() if (p == CC + suffix or p.startswith(CC + suffix + "::<")) and f.e["kind"] == "Fn"]
+        if len(fs) != 1:
+            ctx.missing(R, "dialect:" + suffix.split("::")[-1], "function not found")
+            continue
+        b = Body(fs[0], fb)
+        ctx.touched(b.path)
+        ds = [strip_all(b.operand_term(t["args"][0])) for bi, nm, t in b.calls() if U.flat(nm).endswith("ChiaDialect::new")]
+        ok = len(ds) >= 1 and all(d[0] == "call" and d[1].endswith("ConsensusFlags::to_clvm_flags") and len(d[2]) == 1 and
+                                  strip_all(d[2][0])[0] == "arg" and strip_all(d[2][0])[2] == "flags" for d in ds)
+        n += 1
+        ctx.ob(R, "dialect:" + suffix.split("::")[-1], ok,
+               "%s evaluates under ChiaDialect::new(flags.to_clvm_flags()) -- the caller's flags, unmasked" % suffix.split("::")[-1],
+               found=[show(d)[:120] for d in ds], where=fs[0].sp)
+    ctx.floor(R, "trusted helpers with a dialect", n, 3)
+    b = U.body(ctx, R, CC + "run_block_generator::is_high_priority_condition")
+    if b:
+        want = {43, 44, 45, 46, 47, 48, 49, 50, 51}
+        rows = []
+        ok = True
+        try:
+            for ev, ex in P.enumerate_paths(b):
+                if ex[0] != "return":
+                    continue
+                rc = P.ret_class(ev)
+                fits, vals = None, None
+                for t, l in U.canon_int_conds(P.conds(ev)):
+                    x = strip_all(t)
+                    sx = show(x)
+                    if "try_from" in sx and l[0] == "bool":
+                        fits = l[1] if "is_ok" in sx else (not l[1] if "is_err" in sx else None)
+                        if fits is None:
+                            ok = False
+                    elif l[0] in ("in", "notin") and any(isinstance(y, tuple) and y and y[0] == "arg" and y[1] == 0 for y in subterms(x)):
+                        vals = (l[0], set(l[1]))
+                    else:
+                        ok = False
+                rows.append((rc, fits, vals))
+        except P.Budget:
+            ok = False
+        bad = []
+        if ok:
+            for v in list(range(0, 0x10000)) + [0x10000, 0x1002B, 0x10033, 0xFFFFFFFF]:
+                fits_v = v < 0x10000
+                hit = set()
+                for rc, fits, vals in rows:
+                    if fits is not None and fits != fits_v:
+                        continue
+                    if vals is not None and fits_v and ((v in vals[1]) != (vals[0] == "in")):
+                        continue
+                    if vals is not None and not fits_v:
+                        continue
+                    hit.add(rc)
+                if hit != {"true" if (fits_v and v in want) else "false"}:
+                    bad.append((v, sorted(hit)))
+                    if len(bad) > 4:
+                        break
+        ctx.ob(R, "high-priority-table", ok and not bad,
+               "is_high_priority_condition is true exactly for AGG_SIG_* (43..50) and CREATE_COIN (51), evaluated on every u16 and "
+               "the out-of-range class", found=bad or (None if ok else "guards not of the evaluable form"), where=b.fn.sp)
